@@ -47,7 +47,7 @@ fn has_defref(n: &RefNode) -> bool {
 }
 
 /// assignment of file subsets (bit masks) to the nodes of the master, in pre-order
-fn assign(rng: &mut Rng, n: &RefNode, etype: ElementType, version: AutosarVersion, files: u32, free: Freedom, out: &mut Vec<u32>, split_points: &mut u64) {
+fn assign(rng: &mut Rng, n: &RefNode, etype: ElementType, version: AutosarVersion, files: u32, free: Freedom, out: &mut Vec<u32>, split_points: &mut u64, single_splits: &mut u64) {
     out.push(files);
     let splittable = etype.splittable_in(version) && files.count_ones() > 1;
     for item in &n.items {
@@ -55,7 +55,17 @@ fn assign(rng: &mut Rng, n: &RefNode, etype: ElementType, version: AutosarVersio
             let ct = ElementName::from_str(&c.name).ok().and_then(|cn| child_type(etype, cn, version));
             let mut sub = files;
             let keyed = is_identifiable(c) || has_defref(c);
-            if splittable && c.name != "SHORT-NAME" && (keyed || free.split_keyless) && rng.chance(2, 3) {
+            // a child without key that can occur only once is identified by its element name: it can be given to a subset of the
+            // files as well (e.g. ADMIN-DATA/LANGUAGE, CATEGORY below a splittable element)
+            let single = !keyed
+                && n.items.iter().filter(|i| matches!(i, RefItem::Elem(x) if x.name == c.name)).count() == 1
+                && ElementName::from_str(&c.name).ok().and_then(|cn| etype.find_sub_element(cn, version as u32)).is_some_and(|(_, idx)| {
+                    etype.get_sub_element_multiplicity(&idx) != Some(autosar_data_specification::ElementMultiplicity::Any) && etype.get_sub_element_container_mode(&idx) == autosar_data_specification::ContentMode::Sequence
+                });
+            if splittable && c.name != "SHORT-NAME" && (keyed || free.split_keyless || (single && rng.chance(1, 2))) && rng.chance(2, 3) {
+                if single {
+                    *single_splits += 1;
+                }
                 // a non-empty subset
                 loop {
                     let pick = (rng.next() as u32) & files;
@@ -69,7 +79,7 @@ fn assign(rng: &mut Rng, n: &RefNode, etype: ElementType, version: AutosarVersio
                 }
             }
             match ct {
-                Some(ct) => assign(rng, c, ct, version, sub, free, out, split_points),
+                Some(ct) => assign(rng, c, ct, version, sub, free, out, split_points, single_splits),
                 None => assign_all(c, sub, out),
             }
         }
@@ -235,7 +245,9 @@ pub fn case(rep: &mut Report, rng: &mut Rng, seed: u64, free: Freedom, label: &s
     let all: u32 = (1 << k) - 1;
     let mut assignment = Vec::new();
     let mut split_points = 0;
-    assign(rng, &m.root, ElementType::ROOT, version, all, free, &mut assignment, &mut split_points);
+    let mut single_splits = 0;
+    assign(rng, &m.root, ElementType::ROOT, version, all, free, &mut assignment, &mut split_points, &mut single_splits);
+    rep.count("split_points.single_occurrence_children_without_key", single_splits);
     let master_text = String::from_utf8(refxml::render(rng, Style::plain(), &m)).unwrap_or_default();
     let Ok(master_model) = load_alone(&master_text) else {
         rep.count("masters_not_strictly_loadable(discarded)", 1);
